@@ -318,6 +318,10 @@ def rebuild(root, subst: dict[int, Any] | None = None, fresh=True, share_data=Tr
                     ch[f.name] = nv
             if isinstance(node, DataWrapper) and share_data and not ch:
                 r = node
+            elif set(ch) == {"_container"} and _canonical_member(node, ch["_container"]) is not None:
+                # a named result of a new container: the container's own (memoised) member object,
+                # as every pytato mapper would produce it
+                r = _canonical_member(node, ch["_container"])
             elif ch or fresh:
                 r = dataclasses.replace(node, **ch)
             else:
@@ -334,6 +338,22 @@ def rebuild(root, subst: dict[int, Any] | None = None, fresh=True, share_data=Tr
         return rec(root)
     finally:
         sys.setrecursionlimit(old)
+
+
+def _canonical_member(node, container):
+    """container[node.name] if that is field-for-field what `node` would become, else None"""
+    try:
+        cand = container[node.name]
+    except Exception:
+        return None
+    if type(cand) is not type(node):
+        return None
+    for f in dataclasses.fields(node):
+        if f.name == "_container":
+            continue
+        if getattr(cand, f.name) != getattr(node, f.name):
+            return None
+    return cand
 
 
 def all_nodes(root) -> list[Any]:
